@@ -198,7 +198,7 @@ def generated_case(rnd):
 def run(seed, tier, lean) -> Result:
     res = _run(seed, tier, lean)
     r = random.Random(seed ^ 0xC09)
-    for _ in range(150 if tier == 'quick' else 6000):
+    for _ in range(150 if tier == 'quick' else 900):
         cs = r.getrandbits(48)
         probs, info = generated_case(random.Random(cs))
         res.evaluations += 1; res.bump('generated_graph_cases')
@@ -211,7 +211,7 @@ def run(seed, tier, lean) -> Result:
 def _run(seed, tier, lean) -> Result:
     res = run_histories('C09', seed, tier, lean, WEIGHTS, step_oracle,
                         lambda kinds, ops: len(kinds & {'remove_node', 'remove_attacker', 'add_attacker', 'prune', 'undo', 'attach'}) >= 2,
-                        quick_n=400, thorough_n=20000)
+                        quick_n=400, thorough_n=2400)
     res.rule = ('random histories (6-150 operations) over pools of live handles, explicit/duplicate ids, self-loops and '
                 'duplicate edges; after every step the real graph is checked for structural consistency and its '
                 'canonical state is compared with the Lean state machine; non-trivial = at least two different '
